@@ -49,6 +49,8 @@ fn main() {
             let mode = arg(&args, "--mode", "mixed");
             if mode == "huge" {
                 bincase::run_huge(seed, count, &mut out);
+            } else if mode == "boundary" {
+                bincase::run_boundary(count, &mut out);
             } else if mode == "defaults" {
                 bincase::run_defaults(&mut out, 20);
             } else if mode == "columns" {
@@ -82,6 +84,8 @@ fn main() {
             let mode = arg(&args, "--mode", "mixed");
             if mode == "huge" {
                 xmlcase::run_huge(seed, count, &mut out);
+            } else if mode == "boundary" {
+                xmlcase::run_boundary(count, &mut out);
             } else if mode == "descriptors" {
                 xmlcase::run_descriptors(seed, 6, &mut out);
             } else if mode == "probe-content-object" {
@@ -97,6 +101,8 @@ fn main() {
             let convert = arg(&args, "--convert", "0") == "1";
             if arg(&args, "--huge", "0") == "1" {
                 cross::run_huge(seed, count, &mut out);
+            } else if arg(&args, "--boundary", "0") == "1" {
+                cross::run_cross_boundary(count, &mut out);
             } else if arg(&args, "--convertible", "0") == "1" {
                 cross::run_cross_convertible(seed, count, &mut out);
             } else if arg(&args, "--descriptors", "0") == "1" {
